@@ -949,5 +949,51 @@ func cloneUnsound(f *ssa.Function) []ssa.Instruction {
 			}
 		}
 	})
+	// ... and it is deep for every kind it handles: somewhere under `Kind() == K`, for each reference-bearing K, the
+	// clone calls itself (directly or through a helper of its group) - a struct copied whole with `cp.Set(v)` and no
+	// copy of its fields, or a pointer re-allocated without copying what it points to, shares or loses the inside
+	group := map[*ssa.Function]bool{f: true}
+	if ms, ok := theProg.reflectCluster(f); ok {
+		for _, g := range ms {
+			group[g] = true
+		}
+	}
+	reaches := map[*ssa.Function]bool{}
+	for changed := true; changed; {
+		changed = false
+		for g := range group {
+			if reaches[g] {
+				continue
+			}
+			eachInstr(g, func(_ *ssa.BasicBlock, _ int, in ssa.Instruction) {
+				if ci := callOf(in); ci != nil && ci.static != nil && (ci.static == f || reaches[ci.static]) && !reaches[g] {
+					reaches[g] = true
+					changed = true
+				}
+			})
+		}
+	}
+	for _, k := range []int64{int64(reflect.Slice), int64(reflect.Map), int64(reflect.Pointer), int64(reflect.Interface), int64(reflect.Array), int64(reflect.Struct)} {
+		handled, recurses := false, false
+		var at ssa.Instruction
+		for _, b := range f.Blocks {
+			is, _ := theProg.kindFactsFrom(guardsOf(b), prm)
+			if !is[k] {
+				continue
+			}
+			handled = true
+			for _, in := range b.Instrs {
+				if at == nil {
+					at = in
+				}
+				if ci := callOf(in); ci != nil && ci.static != nil && (ci.static == f || (group[ci.static] && reaches[ci.static])) {
+					recurses = true
+				}
+			}
+		}
+		if handled && !recurses && at != nil {
+			bad = append(bad, at)
+		}
+	}
 	return bad
 }
